@@ -448,6 +448,21 @@ pub fn verify_dir(case: &DirCase, inst: &Installed, pack: &Arc<jbk::reader::Dire
                     Val::RefO(ts, t) => Val::U(inverse[*ts][*t] as u64),
                     other => other.clone(),
                 };
+                // the same value through the typed property builders (every entry of small windows, a sample of big ones)
+                if ix.count <= 300 || i % 17 == 0 {
+                    match typed_read(&store, value_storage.as_ref(), jbk::EntryIdx::from(ix.offset + i), exp_variant.as_deref(), name) {
+                        Ok(Some(t)) if t == expected => out.obs.inc("values_compared_through_typed_builders"),
+                        Ok(Some(t)) => {
+                            bad!("typed-value", format!("index {} entry {i} property {name}: the typed property builder reads {} but {} was written", ix.name, t.brief(), expected.brief()), json!({}));
+                        }
+                        Ok(None) => {
+                            bad!("typed-value", format!("index {} entry {i} property {name}: no typed property builder accepts it", ix.name), json!({}));
+                        }
+                        Err(e) => {
+                            bad!("read-error", e, format!("index {} entry {i} property {name} through a typed builder: {e}", ix.name), json!({"api": "typed-builder"}));
+                        }
+                    }
+                }
                 match re.vals.get(name) {
                     Some(got) if *got == expected => {
                         out.obs.inc("values_compared");
